@@ -27,6 +27,15 @@ from six.moves import range
 default_tuning = tunings.get_tuning("Guitar", "Standard", 6, 1)
 
 
+def _forced_Note(tuning, note):
+    """Return the Note at the 'string' and 'fret' attributes of note, or None if
+    that position doesn't exist on this tuning."""
+    try:
+        return tuning.get_Note(note.string, note.fret)
+    except RangeError:
+        return None
+
+
 def begin_track(tuning, padding=2):
     """Helper function that builds the first few characters of every bar."""
     # find longest shorthand tuning base
@@ -121,7 +130,7 @@ def from_Note(note, width=80, tuning=None):
 
     # Do an attribute check
     if hasattr(note, "string") and hasattr(note, "fret"):
-        n = tuning.get_Note(note.string, note.fret)
+        n = _forced_Note(tuning, note)
         if n is not None and int(n) == int(note):
             (s, f) = (note.string, note.fret)
             min = 0
@@ -177,7 +186,7 @@ def from_NoteContainer(notes, width=80, tuning=None):
         attr = []
         for note in notes:
             if hasattr(note, "string") and hasattr(note, "fret"):
-                n = tuning.get_Note(note.string, note.fret)
+                n = _forced_Note(tuning, note)
                 if n is not None and int(n) == int(note):
                     f += (note.string, note.fret)
                     attr.append(int(note))
@@ -252,7 +261,7 @@ def from_Bar(bar, width=40, tuning=None, collapse=True):
             if notes is not None:
                 for note in notes:
                     if hasattr(note, "string") and hasattr(note, "fret"):
-                        n = tuning.get_Note(note.string, note.fret)
+                        n = _forced_Note(tuning, note)
                         if n is not None and int(n) == int(note):
                             f.append((note.string, note.fret))
                             attr.append(int(note))
